@@ -4,6 +4,7 @@ EXTENDS Integers
 Strict == FALSE
 DomCap == 10
 Seed == 0
+Clauses == {}
 BPs == << [entities |-> <<>>, wires |-> <<>>, extra |-> <<>>] >>
 Recs == << [id |-> "stub", stmts |-> <<>>, u |-> 1] >>
 Expect == <<>>
